@@ -137,7 +137,29 @@ PROPERTIES["C12"] = {
     ],
 }
 
+_HCOBS_ASSUMED = [
+    "ASSUMED (not proved here; producer-side content of C03/C04): OwningIovec::{new,push,push_copy,register_patch,"
+    "backfill_or_panic,push_anchor} contracts over the ghost view (bytes, pending) -- vx/hcobs/assumed_iovec.rs",
+    "ASSUMED: find_stuff_sequence returns the first FE FD index or None (its body uses windows().enumerate(), outside "
+    "Verus's dialect); checked only by a BOUNDED Kani harness (all slices of length <= 12)",
+    "ASSUMED: AnchoredSlice::components yields exactly the anchored bytes (unsafe in the real crate; memory validity is C05)",
+    "ASSUMED: Backref::len == registered pattern length; Backref: Default; std::mem::swap per vstd's specification",
+    "consumer-side operations (drains) do not change the ghost view (bytes, pending): the logical stream since "
+    "creation; that drained bytes equal a prefix of it is C03, assumed",
+    "C09's slice-granularity slack ('one arena chunk') lives inside OwningIovec::stable_prefix and is assumed, not proved",
+    "Verus N-rules (see coverage.n_rules_applied) are syntactic and trusted; the lexer/extractor is trusted",
+]
+for _pid in ("C01", "C02", "C07", "C09"):
+    PROPERTIES[_pid] = {
+        "level": "proof",
+        "kani_units": [],
+        "verus_units": ["hcobs"],
+        "assumptions": list(_HCOBS_ASSUMED),
+    }
+
 TRUSTED_BASE = [
+    "Verus 0.2026.09.13 / Z3 (machine integers checked for overflow on every exec operation; termination by decreases)",
+    "the spec functions enc / dstep / drun in /verif/vx/hcobs (transcriptions of the format)",
     "Kani 0.68 / CBMC 6.11 / CaDiCaL (bit-precise; machine arithmetic not idealised)",
     "rustc (Kani's pinned nightly) MIR semantics",
     "the harness oracles in /verif/kc/*.rs (transcriptions of the property statements)",
